@@ -357,6 +357,38 @@ def into_impl_set_shape():
                  exercises=["impl/src/into.rs::ConversionsAttribute::merge_attrs", "impl/src/into.rs::Expansion"])
 
 
+ABSENT_IMPLS = [
+    ("unannotated_variant_after_explicit", "no From for an un-annotated variant once a variant carries #[from]",
+     "#[derive(derive_more::From)] pub enum E { #[from] A(u8), B(u16) } pub fn f() -> E { E::from(1u16) }"),
+    ("unannotated_after_types", "no From for an un-annotated variant once a variant carries #[from(types)]",
+     "#[derive(derive_more::From)] pub enum E { #[from(u8)] A(u32), B(u16) } pub fn f() -> E { E::from(1u16) }"),
+    ("unannotated_after_forward", "no From for an un-annotated variant once a variant carries #[from(forward)]",
+     "#[derive(derive_more::From)] pub enum E { #[from(forward)] A(u32), B(i16) } pub fn f() -> E { E::from(1i16) }"),
+    ("skipped_variant", "no From for a #[from(skip)] variant",
+     "#[derive(derive_more::From)] pub enum E { A(u8), #[from(skip)] B(u16) } pub fn f() -> E { E::from(1u16) }"),
+    ("ignored_variant", "no From for a #[from(ignore)] variant",
+     "#[derive(derive_more::From)] pub enum E { A(u8), #[from(ignore)] B(u16) } pub fn f() -> E { E::from(1u16) }"),
+    ("unit_variant", "no From<()> for a unit variant without attribute",
+     "#[derive(derive_more::From)] pub enum E { A(u8), U } pub fn f() -> E { E::from(()) }"),
+    ("from_types_no_plain", "#[from(u8)] generates From<u8> only, not From<field type>",
+     "#[derive(derive_more::From)] #[from(u8)] pub struct S(u32); pub fn f() -> S { S::from(1u32) }"),
+    ("into_skipped_field_in_tuple", "a #[into(skip)] field is not part of the tuple",
+     "#[derive(derive_more::Into)] pub struct S { a: u8, #[into(skip)] b: u16 } pub fn f(s: S) -> (u8, u16) { s.into() }"),
+    ("into_only_ref_listed", "#[into(ref)] generates the shared-reference impl only",
+     "#[derive(derive_more::Into)] #[into(ref)] pub struct S(u8); pub fn f(s: S) -> u8 { s.into() }"),
+    ("into_only_owned_by_default", "without attribute only the owned impl exists",
+     "#[derive(derive_more::Into)] pub struct S(u8); pub fn f(s: &S) -> &u8 { s.into() }"),
+    ("into_types_no_plain", "#[into(u16)] generates Into<u16> only",
+     "#[derive(derive_more::Into)] #[into(u16)] pub struct S(u8); pub fn f(s: S) -> u8 { s.into() }"),
+]
+
+
+def absent_impl_shapes():
+    """'the set of generated impls is exactly the documented one': a call of an impl that must not exist has to be rejected (rustc's verdict)."""
+    from ..shapes import reject_shape
+    return [reject_shape("c08", n, prog, why, ["impl/src/from.rs::expand", "impl/src/into.rs::expand"]) for n, why, prog in ABSENT_IMPLS]
+
+
 def shapes(tier):
     out = []
     out.append(into_impl_set_shape())
@@ -378,6 +410,7 @@ def shapes(tier):
         out.append(typed_shape(kind))
     out.append(field_level_into_shape())
     out += enum_shapes()
+    out += absent_impl_shapes()
     # the whole grid costs ~15 s: quick and thorough run all of it
     return out
 
